@@ -14,7 +14,6 @@ use serde::Deserialize;
 use serde::Serialize;
 use time::format_description::well_known::Rfc3339;
 use time::OffsetDateTime;
-use time::UtcOffset;
 
 use crate::error::Error;
 use crate::error::Result;
@@ -33,9 +32,11 @@ impl Timestamp {
   pub fn parse(input: &str) -> Result<Self> {
     let offset_date_time = OffsetDateTime::parse(input, &Rfc3339)
       .map_err(time::Error::from)
-      .map_err(Error::InvalidTimestamp)?
-      .to_offset(UtcOffset::UTC);
-    Ok(Timestamp(truncate_fractional_seconds(offset_date_time)))
+      .map_err(Error::InvalidTimestamp)?;
+    // Normalise to UTC+00:00 with whole seconds through the same range gate as `from_unix`: converting with
+    // `to_offset` panics when the offset moves the instant out of the representable range, and it accepts
+    // instants before year 0000 that `to_rfc3339` cannot format.
+    Self::from_unix(offset_date_time.unix_timestamp())
   }
 
   /// Creates a new `Timestamp` with the current date and time, normalized to UTC+00:00 with
